@@ -196,6 +196,7 @@ Proof.
   all: try (match goal with Ha : nth_error (apps _) _ = Some ?a |- _ => let T := fresh "T" in destruct (a_tok a) eqn:T; simpl in *; rewrite ?T in *; simpl in *; rank_case end).
   all: try (match goal with Hm : mem_nat _ _ = true |- _ => pose proof (remove_first_length _ _ Hm) end;
             destruct (tick s) eqn:?; simpl in *; rank_case).
+  all: try (destruct (mw0 s) eqn:?; simpl in *; rank_case).
 Qed.
 
 Theorem run_rank l : forall s s', inv s -> run cfg_fixed s l = Some s' -> length l + rank s' <= rank s.
